@@ -14,6 +14,7 @@
                        as fixed by 01f2987: retry with the reduced size, RetryError at <= 0)
   * `sdrChunkOp`       sdr._get_sdr_chunk / sensor._get_device_sdr_chunk on top of `sdrChunk`
   * `sdrEntries`       sdr.sdr_repository_entries / sensor.device_sdr_entries
+  * `readFruRange`, `readFruArea`   fru.read_fru_data(offset, count) and fru._read_fru_area
   * `SkH.run`          skeletons whose calls of modelled operations are interpreted by the
                        models (`leaf`) instead of being inlined: the compositions
                        (get_fru_inventory, upgrade_stage, get_repository_sdr_list, ...)
@@ -193,6 +194,20 @@ def sdrChunkOp (cs : ChunkCodes) (reserve : Prog Nat) (setRes : Nat → Req → 
 def sdrEntries {β : Type} (reserve : Prog Nat) (entry : Nat → Nat → Prog β) (nextOf : β → Res Nat)
     (first last fuel : Nat) : Prog (List β) :=
   reserve.bind fun res => listLoop (entry res) nextOf last fuel first []
+
+/-! ### fru area reads -/
+
+/-- read_fru_data(offset=off, count=count): the loop over [off, off + count), request size 32. -/
+def readFruRange (mk : Nat → Nat → Req) (cnt : Rsp → Nat) (pay : Rsp → List Nat) (back : List Nat)
+    (reqSize fuel off count : Nat) : Prog (List Nat) :=
+  readFru mk cnt pay back (off + count) fuel off reqSize []
+
+/-- fru._read_fru_area(offset): the 5-byte area header, then the whole area, whose length in
+multiples of 8 bytes is the header's second byte. -/
+def readFruArea (mk : Nat → Nat → Req) (cnt : Rsp → Nat) (pay : Rsp → List Nat) (back : List Nat)
+    (reqSize fuel off : Nat) : Prog (List Nat) :=
+  (readFruRange mk cnt pay back reqSize fuel off 5).bind fun d =>
+    readFruRange mk cnt pay back reqSize fuel off (d.getD 1 0 * 8)
 
 /-! ### compositions: skeletons over modelled operations -/
 
